@@ -488,6 +488,52 @@ Section Expand.
     end.
 End Expand.
 
+(* D3, composition of the children's contributions (helpers of spec_tf) *)
+Section ObjAll.
+  Variable F : decl -> sres.          (* contribution of a member at the cursor *)
+  Fixpoint obj_all (l : list (bytes * decl)) (o : list (bytes * value)) : option (list (bytes * value)) :=
+    match l with
+    | [] => Some o
+    | (k, a) :: r =>
+        match F a with
+        | SFail => None
+        | SOmit => obj_all r o
+        | SVal v => obj_all r (obj_set k v o)
+        end
+    end.
+End ObjAll.
+
+Section ArrAll.
+  Variable sel : bytes -> option (list path).                        (* the nodes an xpath selects from the cursor *)
+  Variable G : decl -> option bytes * (path -> sres).                (* element: xpath in force, contribution at a node *)
+  Fixpoint arr_each (f : path -> sres) (ns : list path) (acc : list value) : option (list value) :=
+    match ns with
+    | [] => Some acc
+    | n :: ns' =>
+        match f n with
+        | SFail => None
+        | SOmit => arr_each f ns' acc
+        | SVal v => arr_each f ns' (acc ++ [v])
+        end
+    end.
+  Fixpoint arr_all (l : list decl) (acc : list value) : option (list value) :=
+    match l with
+    | [] => Some acc
+    | a :: r =>
+        match fst (G a) with
+        | None => arr_all r acc               (* the dynamic xpath has no value: no element *)
+        | Some xp =>
+            match sel xp with
+            | None => None
+            | Some ns => match arr_each (snd (G a)) ns acc with
+                         | None => None
+                         | Some acc' => arr_all r acc'
+                         end
+            end
+        end
+    end.
+End ArrAll.
+
 Section Spec.
   Variable root : tree.
   Variable query : bytes -> path -> option (list path).
@@ -537,103 +583,77 @@ Section Spec.
         end
     end.
 
-  (* evaluation of a template-free declaration; [anchor] = apply the declaration's own xpath
-     (false for FINAL_OUTPUT and for an element of an array, which the array already matched) *)
+  (* D2: the cursor a declaration is evaluated at.  None = the record fails, Some None = no node
+     (null result), Some (Some n) = node n.  [anchor] = apply the declaration's own xpath (false
+     for FINAL_OUTPUT and for an element of an array, which the array already matched);
+     [xdres] = the result of its xpath_dynamic declaration, if it has one. *)
+  Definition spec_cursor (anchor : bool) (x : option bytes) (xdres : option sres) (p : path)
+    : option (option path) :=
+    if negb anchor then Some (Some p)
+    else if negb (is_some x || is_some xdres) then Some (Some p)
+    else
+      match spec_xpath x xdres with
+      | None => Some None
+      | Some xp =>
+          match select xp p with
+          | None => None
+          | Some [] => Some None
+          | Some [n] => Some (Some n)
+          | Some _ => None
+          end
+      end.
+
+  Definition spec_at (norm : value -> sres) (cur : option (option path)) (f : path -> sres) : sres :=
+    match cur with
+    | None => SFail
+    | Some None => norm VNil        (* no node: a null result (D4 decides whether it shows) *)
+    | Some (Some n) => f n
+    end.
+
+  (* D3 for custom_func, given the contributions of the argument declarations *)
+  Definition spec_call (norm : value -> sres) (name : bytes) (ig : bool) (n : path) (args : list sres) : sres :=
+    match fsigs name with
+    | None => SFail
+    | Some s =>
+        let nfix := length (s_fixed s) in
+        let nargs := length args in
+        if Nat.ltb nargs nfix || (Nat.ltb nfix nargs && negb (is_some (s_variadic s))) then SFail
+        else
+          match spec_args s 0 args with
+          | None => SFail
+          | Some vs =>
+              match fcall name n vs with
+              | CfOk v => norm v
+              | CfErr => if ig then norm VNil else SFail
+              end
+          end
+    end.
+
+  (* evaluation of a template-free declaration *)
   Fixpoint spec_tf (d : decl) (anchor : bool) (p : path) {struct d} : sres :=
     let 'Decl c e x xd fn args ig pa tm ob ar ty nt kp := d in
     let norm := spec_norm nt kp ty in
-    (* the cursor for field / object / custom_func / custom_parse *)
-    let cursor : option (option path) :=     (* None = fail, Some None = omitted *)
-      if negb anchor then Some (Some p)
-      else if negb (is_some x || is_some xd) then Some (Some p)
-      else
-        match spec_xpath x (match xd with Some q => Some (spec_tf q true p) | None => None end) with
-        | None => Some None
-        | Some xp =>
-            match select xp p with
-            | None => None
-            | Some [] => Some None
-            | Some [n] => Some (Some n)
-            | Some _ => None
-            end
-        end in
-    let at_cursor (f : path -> sres) : sres :=
-      match cursor with
-      | None => SFail
-      | Some None => norm VNil        (* no node: a null result (D4 decides whether it shows) *)
-      | Some (Some n) => f n
-      end in
+    let cur := spec_cursor anchor x (match xd with Some q => Some (spec_tf q true p) | None => None end) p in
     match c, e, fn, pa, ob, ar with
     | Some text, _, _, _, _, _ => norm (VStr text)
     | None, Some name, _, _, _, _ =>
         match ext name with Some v => norm (VStr v) | None => SFail end
     | None, None, Some name, _, _, _ =>
-        at_cursor (fun n =>
-          match fsigs name with
-          | None => SFail
-          | Some s =>
-              let nfix := length (s_fixed s) in
-              let nargs := length args in
-              if Nat.ltb nargs nfix || (Nat.ltb nfix nargs && negb (is_some (s_variadic s))) then SFail
-              else
-                match spec_args s 0 (map (fun a => spec_tf a true n) args) with
-                | None => SFail
-                | Some vs =>
-                    match fcall name n vs with
-                    | CfOk v => norm v
-                    | CfErr => if ig then norm VNil else SFail
-                    end
-                end
-          end)
+        spec_at norm cur (fun n => spec_call norm name ig n (map (fun a => spec_tf a true n) args))
     | None, None, None, Some name, _, _ =>
-        at_cursor (fun n => match pcall name n with CfOk v => norm v | CfErr => SFail end)
+        spec_at norm cur (fun n => match pcall name n with CfOk v => norm v | CfErr => SFail end)
     | None, None, None, None, Some kids, _ =>
-        at_cursor (fun n =>
-          match (fix all (l : list (bytes * decl)) : option (list (bytes * value)) :=
-                   match l with
-                   | [] => Some []
-                   | (k, a) :: r =>
-                       match spec_tf a true n, all r with
-                       | SFail, _ => None
-                       | _, None => None
-                       | SOmit, Some o => Some o
-                       | SVal v, Some o => Some (obj_set k v o)
-                       end
-                   end) kids with
+        spec_at norm cur (fun n =>
+          match obj_all (fun a => spec_tf a true n) kids [] with
           | None => SFail
           | Some o => norm (VObj o)
           end)
     | None, None, None, None, None, Some elems =>
-        match (fix all (l : list decl) : option (list value) :=
-                 match l with
-                 | [] => Some []
-                 | a :: r =>
-                     let 'Decl _ _ ax axd _ _ _ _ _ _ _ _ _ _ := a in
-                     let here :=
-                       match spec_xpath ax (match axd with Some q => Some (spec_tf q true p) | None => None end) with
-                       | None => Some []              (* the dynamic xpath has no value: no element *)
-                       | Some xp =>
-                           match select xp p with
-                           | None => None
-                           | Some ns =>
-                               (fix each (ns : list path) : option (list value) :=
-                                  match ns with
-                                  | [] => Some []
-                                  | n :: ns' =>
-                                      match spec_tf a false n, each ns' with
-                                      | SFail, _ => None
-                                      | _, None => None
-                                      | SOmit, Some vs => Some vs
-                                      | SVal v, Some vs => Some (v :: vs)
-                                      end
-                                  end) ns
-                           end
-                       end in
-                     match here, all r with
-                     | Some vs, Some ws => Some (vs ++ ws)
-                     | _, _ => None
-                     end
-                 end) elems with
+        match arr_all (fun xp => select xp p)
+                      (fun a => let 'Decl _ _ ax axd _ _ _ _ _ _ _ _ _ _ := a in
+                                (spec_xpath ax (match axd with Some q => Some (spec_tf q true p) | None => None end),
+                                 fun n => spec_tf a false n))
+                      elems [] with
         | None => SFail
         | Some vs => norm (VList vs)
         end
@@ -641,7 +661,7 @@ Section Spec.
         match tm with
         | Some _ => SFail       (* not template-free *)
         | None =>
-            at_cursor (fun n =>
+            spec_at norm cur (fun n =>
               match inner_text_at root n with Some s => norm (VStr s) | None => SFail end)
         end
     end.
